@@ -313,6 +313,68 @@ def b5_closed_world(ctx, rr, funcs):
             rr.ok("%s: %d attribute names on untyped receivers are defined somewhere" % (fi.qualname, cnt))
 
 
+# ------------------------------------------------------------------ B6
+_TYPE_NAMES = {"str", "int", "float", "bool", "complex", "bytes", "type", "object"}
+_ITER_ARG = {"zip": None, "enumerate": 0, "sorted": 0, "list": 0, "tuple": 0, "set": 0, "frozenset": 0, "sum": 0, "any": 0, "all": 0, "iter": 0, "len": 0, "reversed": 0}
+
+
+def b6_builtin_arg_kinds(ctx, rr, funcs):
+    """B6: calls of builtins whose argument kinds are wrong on the face of it (TypeError on every execution):
+    a bare builtin class (str, int, ...) where an iterable is required, a literal where a callable is required,
+    `self` / a builtin class / a non-string literal as the attribute name of getattr / setattr / hasattr."""
+    for fi in funcs:
+        cnt = 0
+        for c in walk_shallow(fi.node):
+            if not (isinstance(c, ast.Call) and isinstance(c.func, ast.Name)) or any(isinstance(a, ast.Starred) for a in c.args):
+                continue
+            fn = c.func.id
+            if not _is_plain_builtin(ctx, fi, fn):
+                continue
+
+            def bare_type(a):
+                return isinstance(a, ast.Name) and a.id in _TYPE_NAMES and _is_plain_builtin(ctx, fi, a.id)
+            bad = None
+            if fn in ("map", "filter") and len(c.args) >= 2:
+                cnt += 1
+                if isinstance(c.args[0], (ast.List, ast.Tuple, ast.Dict, ast.Set)) or (isinstance(c.args[0], ast.Constant) and c.args[0].value is not None):
+                    bad = "%s() is given the literal `%s` as its function" % (fn, norm(c.args[0])[:40])
+                for a in c.args[1:]:
+                    if bare_type(a):
+                        bad = "%s() is given the class `%s` as an iterable" % (fn, a.id)
+            elif fn in _ITER_ARG and c.args:
+                cnt += 1
+                idxs = range(len(c.args)) if _ITER_ARG[fn] is None else [0]
+                for i in idxs:
+                    if bare_type(c.args[i]):
+                        bad = "%s() is given the class `%s` as an iterable" % (fn, c.args[i].id)
+            elif fn in ("getattr", "setattr", "hasattr", "delattr") and len(c.args) >= 2:
+                cnt += 1
+                a = c.args[1]
+                if (isinstance(a, ast.Name) and a.id == "self" and fi.cls is not None) or bare_type(a) or (isinstance(a, ast.Constant) and not isinstance(a.value, str)) or isinstance(a, (ast.List, ast.Dict, ast.Set, ast.Tuple)):
+                    bad = "%s() is given `%s` as the attribute name (must be a string)" % (fn, norm(a)[:40])
+            if bad:
+                rr.bad(ctx.finding(rr.rule, fi, c, bad + " (TypeError on this path)", construct="builtin-arg " + fn))
+        if cnt:
+            rr.ok("%s: %d builtin calls with plausible argument kinds" % (fi.qualname, cnt))
+
+
+def _is_plain_builtin(ctx, fi, name):
+    """`name` is not bound in fi's scope chain or module: it denotes the builtin"""
+    if name not in BUILTINS:
+        return False
+    f = fi
+    while f is not None:
+        for n in walk_shallow(f.node):
+            if isinstance(n, ast.Name) and n.id == name and isinstance(n.ctx, ast.Store):
+                return False
+        a = f.node.args
+        if name in [x.arg for x in a.args + a.kwonlyargs + a.posonlyargs] or (a.vararg and a.vararg.arg == name) or (a.kwarg and a.kwarg.arg == name):
+            return False
+        f = f.parent
+    m = fi.module
+    return name not in m.funcs and name not in m.classes and name not in m.imports and name not in m.consts
+
+
 def run_link_rules(ctx, prefix, funcs, externals=True, closed_world=False):
     """Run B1..B3 (and optionally B4/B5) on a property's slice."""
     funcs = [f for f in funcs if f is not None]
@@ -325,6 +387,8 @@ def run_link_rules(ctx, prefix, funcs, externals=True, closed_world=False):
     b2_internal_refs(ctx, r2, funcs)
     r3 = ctx.rule(prefix + ".B3", "resolved intra-package calls match their callee's signature", floor=0 if small else 1)
     b3_signatures(ctx, r3, funcs)
+    r6 = ctx.rule(prefix + ".B6", "builtin calls are given plausible argument kinds (iterables, callables, attribute names)", floor=0)
+    b6_builtin_arg_kinds(ctx, r6, funcs)
     if externals:
         r4 = ctx.rule(prefix + ".B4", "references into installed third-party / stdlib modules resolve", floor=0)
         b4_external_refs(ctx, r4, funcs)
